@@ -307,7 +307,7 @@ macro_rules! target_stream {
 pub fn property() -> Property {
     Property {
         id: "C17",
-        rule: "Eleven byte-level targets cover every public entry point that takes external text or bytes (pattern compile/match/best_match + Dewey; PkgName/PkgPath/Depend; Summary::from_str + getters + Display; SummaryStream::write chunked; Plist/PlistEntry + views; Distinfo parse/write/lookup/verify-on-missing-file + EntryType; ScanIndex::from_reader; Digest::from_str + hash_file/hash_patch/hash_str with a chunked reader; Metadata::read_metadata for all 14 entries + is_valid + from_filename; PkgDB::open + iteration + read_metadata over directory trees decoded from the bytes; a call-sequence interpreter over the Summary setters, pushers, getters, is_completed, Display, clone). Inputs per target: arbitrary bytes / Unicode (20%), grammar-derived documents from the generators of C01-C16 and the repository's own fixtures and real pkgsrc patterns / names (35%), and 1-3 mutations of such documents (45%): truncation, slice duplication / deletion, splicing two documents, replacing a number by a 19-400 digit one, inserting NUL / invalid UTF-8 / LF LF / braces / operators, 500-3500 character lines, byte flips. Enumerated stream: every prefix of the fixtures. Oracle: the call returns (no panic - caught and reported with its message and location) within the 20 s watchdog (a trip is confirmed in isolation with a 60 s budget before it counts); inputs are capped at 4 KiB and brace patterns with more than 1024 expansions are excluded and counted (cost exponential by specification). Non-trivial = the entry point got past its first validation step (pattern compiled, a record / entry / line was produced, ...) or the input is a mutation of a valid document. Distinct = distinct inputs.",
+        rule: "Eleven byte-level targets cover every public entry point that takes external text or bytes (pattern compile/match/best_match + Dewey; PkgName/PkgPath/Depend; Summary::from_str + getters + Display; SummaryStream::write chunked; Plist/PlistEntry + views; Distinfo parse/write/lookup/verify-on-missing-file + EntryType; ScanIndex::from_reader; Digest::from_str + hash_file/hash_patch/hash_str with a chunked reader; Metadata::read_metadata for all 14 entries + is_valid + from_filename; PkgDB::open + iteration + read_metadata over directory trees decoded from the bytes; a call-sequence interpreter over the Summary setters, pushers, getters, is_completed, Display, clone). Inputs per target: arbitrary bytes / Unicode (20%), grammar-derived documents from the generators of C01-C16 and the repository's own fixtures and real pkgsrc patterns / names (35%), and 1-3 mutations of such documents (45%): truncation, slice duplication / deletion, splicing two documents, replacing a number by a 19-400 digit one, inserting NUL / invalid UTF-8 / LF LF / braces / operators, 500-3500 character lines, byte flips. Enumerated stream: every prefix of the fixtures. Oracle: the call returns (no panic - caught and reported with its message and location) within the 20 s watchdog (a trip is confirmed in isolation with a 60 s budget before it counts); inputs are capped at 4 KiB and brace patterns with more than 1024 expansions are excluded and counted (cost exponential by specification). Non-trivial = the entry point got past its first validation step (pattern compiled, a record / entry / line was produced, ...) or the input is a mutation of a valid document. Distinct = distinct inputs. Generators also draw, at low weight, tokens from the source-literal dictionary (every string / byte / character literal of the library's own source, collected at build time and filtered by this domain's character class) (through the shared generators; thorough: appended to the libFuzzer dictionaries).",
         assumptions: vec![
             "inputs are at most 4 KiB; deeper recursion (one level per brace group) and larger inputs are not explored",
             "PkgDB::open on an unreadable directory is not reachable as root",
